@@ -122,3 +122,20 @@ Theorem C13_end_to_end_compose : forall D has_ns hc rm rn rr re_ok ns p1 p2 abs 
       (Forall flat_step (s1 ++ s2) -> sorted_doc l /\ sorted_doc l1).
 Proof. exact C13_compose_end_to_end. Qed.
 Print Assumptions C13_end_to_end_compose.
+
+(* ------------------------------------------------------------------ *)
+(* END TO END, absolute paths WITH predicates: any absolute path text of the round-trip grammar
+   (predicates of any form and number on any step: existence, comparisons, and/or/not, positional,
+   nested paths) that compiles, compiles to a context-free query: Select and Evaluate agree for any
+   two start nodes of any document — in every white-space layout. *)
+From XP.Proofs Require Import RoundTripWs EndToEndAbsPred.
+
+Theorem C13_end_to_end_absolute_with_predicates : forall re_ok ns s r q,
+  is_abs_start s -> xwf (XPath s r) -> xok (XPath s r) -> xdepth (XPath s r) < max_depth ->
+  compile re_ok (print_min (XPath s r)) ns = Ok q ->
+  ctx_free q /\
+  forall rm rn rr (hc : tree -> node -> N) D has_ns c1 c2,
+    select rm rn rr hc D has_ns q c1 = select rm rn rr hc D has_ns q c2 /\
+    evaluate rm rn rr hc D has_ns q c1 = evaluate rm rn rr hc D has_ns q c2.
+Proof. exact C13_abs_pred_end_to_end. Qed.
+Print Assumptions C13_end_to_end_absolute_with_predicates.
